@@ -268,7 +268,7 @@ func init() {
 			// builder calls made after a schema was handed to its parent's constructor mean the same as before it
 			items = append(items, lateConfigItems(tier, c02Scenario, func(a *Alpha) { a.PathOpt = true })...)
 			// the issues a caller holds are exactly the violations, also after later and overlapping executions
-			return append(items, callsItems(tier, "C02", "clean-despite-violation", "depends-on-history", "nested-call-differs", "earlier-result-changed", "schema-modified", "panic")...)
+			return append(items, callsItems(tier, "C02", "clean-despite-violation", "depends-on-history", "nested-call-differs", "earlier-result-changed", "panic")...)
 		},
 	})
 }
